@@ -1,6 +1,24 @@
-"""C18 -- readers and writers fail only in documented ways, on any input.   Level: other (bounded run-time contracts).
+"""C18 -- readers and writers fail only in documented ways, on any input.   Level: other (proof tier on stated shapes + bounded).
 
-Functions under contract (real code, called through their public entry points, see rtc/c18.py):
+Proof tier (contracts/c18_proofs.py; pyvc, real code executed symbolically, z3/cvc5): `no exception` as a contract, for ALL values
+of the symbols, on a stated list of shapes --
+  * a one-cue SRT file / WebVTT file (with and without hours) whose time fields are ANY digit strings the reader's regular expression
+    admits (A-RE): the real reader returns a document, ISD.generate_isd_sequence returns, and each of srt (2 configurations), vtt (2)
+    and imsc (3 time formats) writes it;
+  * two paragraphs with symbolic rational begin/end (sub-millisecond, sub-frame, inverted, touching, overlapping intervals) through
+    the same writers;
+  * ruby shapes whose parts have their own symbolic begin/end (annotation temporarily inactive): ISD.from_model at a symbolic t,
+    significant_times, generate_isd_sequence, SRT and WebVTT writers.
+  The writers call ClockTime.from_seconds: checked MODULARLY against its contract (contracts/callee.py), which the three
+  ClockTime.from_seconds harnesses of this check discharge for the real body.
+  An exception on a feasible path is a failed obligation `raises/<type>` whose counter-model is replayed natively.
+
+What the proof tier cannot reach: termination and exception-freedom of a whole reader over arbitrary text.  The readers are string
+processing from the first line on (str.split / splitlines, `re`, html.parser, expat, struct.unpack, codecs, dict and Enum lookups keyed
+by input tokens); pyvc has no symbolic strings, no model of `re` beyond digit groups, and no loops with a symbolic trip count.  That
+part of the statement is decided by the bounded tier only (labelled bounded, never counted as proved):
+
+Bounded tier (rtc/c18.py), functions under run-time contract through their public entry points:
   readers   ttconv.imsc.reader.to_model (after xml.etree.ElementTree.parse), ttconv.scc.reader.to_model, ttconv.stl.reader.to_model,
             ttconv.srt.reader.to_model, ttconv.vtt.reader.to_model
             contract: terminates within the per-input limit and returns a ContentDocument | returns None after a FATAL log record |
@@ -10,20 +28,17 @@ Functions under contract (real code, called through their public entry points, s
             again be snapshotted and written
   writers   ttconv.imsc.writer.from_model (8 time_format / fps configurations, incl. serialisation), ttconv.srt.writer.from_model (3),
             ttconv.vtt.writer.from_model (9)                                         contract: no exception
-
-No proof tier.  Termination and exception-freedom of a whole reader are outside what the symbolic executor (pyvc) can reach: the
-readers are string processing from the first line on (str.split / splitlines, `re`, html.parser, expat, struct.unpack, codecs,
-dict and Enum lookups keyed by input tokens), pyvc has no symbolic strings, no model of `re`, and no loops with a symbolic trip
-count; an "escaping exception type" analysis by name reports RuntimeError/TypeError from every entry point (the model API raises them
-on purpose), so it cannot separate defects from guards (DESIGN.md section 6, C18 feasibility note).  The decision here is therefore by
-evaluation over generated and mutated inputs, with the stated bound; nothing is counted as proved.  (The two numeric guards that could be
-reached symbolically -- SrtParagraph.to_string / VttCue.to_string with rational begin/end -- are exercised by the bounded tier through
-TTML intervals of 0, 0.1, 0.4 and 1 ms and through inverted intervals.)
 """
 import framework
 
 PROP = "C18"
 ASSUMPTIONS = [
+  "A-PY/A-SMT as in C12; A-RE: a regular-expression group is abstracted to `any digit string the sub-pattern can spell` (pyvc.restub); proof "
+  "tier: rational timings below 2^22 s (file shapes: unbounded digit counts where the pattern allows them)",
+  "proof tier: `no exception` is decided by exhaustive exploration of the feasible paths of the real code on the stated shapes (path "
+  "feasibility by z3/cvc5); a path whose feasibility stays unknown is explored as if feasible",
+  "modular step: ClockTime.from_seconds is replaced at its call sites by its contract (contracts/callee.py); the contract is discharged for "
+  "the real body by three harnesses of the same run (exact rational arguments only; float arguments run the real body)",
   "A-STDLIB-RAISES: exceptions raised by the XML parser itself (xml.etree.ElementTree.parse, no ttconv frame on the stack) count as "
   "`XML parse error` whatever their Python type; html.parser, struct, codecs and expat are assumed to terminate",
   "the accepted exception types are exactly ParseError, ValueError (and its subclasses, e.g. UnicodeDecodeError) and struct.error; "
@@ -58,11 +73,32 @@ def check(tier, seed, only=None, skip_a=False, skip_b=False):
       cov["functions_under_contract"].append(loader.locate(fn))
     except Exception as e:  # pylint: disable=broad-except
       undecided.append(f"obligation={fn} reason=function-not-found:{e}")
+  if not skip_a:
+    from contracts import c18_proofs, callee
+    from pyvc import modular
+    hs = c18_proofs.all_harnesses(tier)
+    if only:
+      hs = [h for h in hs if only in h.name]
+    for h in hs:
+      h.budget_s = 300.0 if tier == "quick" else 1200.0
+      h.max_paths = 20000
+    cov_a, findings_a, undecided_a, errors_a = framework.run_tier_a(PROP, hs)
+    fns = cov["functions_under_contract"]
+    for k, v in cov_a.items():
+      if k == "functions_under_contract":
+        fns += [x for x in v if x not in fns]
+      else:
+        cov[k] = v
+    cov["assumed_callee_contracts"] = [{"callee": k, "stated_in": "contracts/callee.py", "discharged_in_this_run_by": v}
+                                       for k, v in callee.DISCHARGED_BY.items()]
+    findings += findings_a
+    undecided += undecided_a
+    errors += errors_a
   if not skip_b:
     data, errs = framework.run_tier_b("c18", tier, seed, timeout=5400)
     errors += errs
     if data:
-      findings = framework.findings_from_rtc(data)
+      findings += framework.findings_from_rtc(data)
       for k in ("evaluations", "distinct_nontrivial", "rule", "bounded_scope", "exhaustive", "samples", "per_contract"):
         cov[k] = data.get(k)
       if not data.get("evaluations"):
@@ -71,10 +107,12 @@ def check(tier, seed, only=None, skip_a=False, skip_b=False):
       for fmt in ("ttml", "scc", "stl", "srt", "vtt"):
         if not outcomes.get(f"{fmt}:doc"):
           errors.append(f"no {fmt} input produced a document: the later stages were never exercised for this format")
-  cov["explanation"] = ("Run-time contract `documented outcome only` on the five readers and `no exception` on ISD generation, the LCD filter and the "
-                        "three writers under their configurations, evaluated on grammar-generated valid files of the five input formats, on "
-                        "structure-aware single/double/triple mutations of those and of the bundled corpus, and on hand-written boundary "
-                        "files; per-input time limit as bounded termination check.  Every failing input is shrunk and replayable.  Bounded; "
-                        "nothing is proved by SMT (see the module docstring for why no proof tier exists for this property).")
+  cov["explanation"] = ("Proved (all digit values of the time fields of a one-cue SRT / WebVTT file; all rational begin/end of two paragraphs; all "
+                        "rational timings of ruby parts and all query times): reader -> snapshots -> srt / vtt / imsc writers return without "
+                        "exception, ClockTime.from_seconds used through its contract.  Bounded: run-time contract `documented outcome only` on "
+                        "the five readers and `no exception` on ISD generation, the LCD filter and the three writers under their configurations, "
+                        "on grammar-generated valid files of the five input formats, structure-aware single/double/triple mutations of those and "
+                        "of the bundled corpus, and hand-written boundary files; per-input time limit as bounded termination check; every failing "
+                        "input is shrunk and replayable.  Arbitrary text is decided by the bounded tier only.")
   cov["trusted_base"] = ASSUMPTIONS
-  return framework.Outcome(PROP, tier, seed, "exploration", cov, ASSUMPTIONS, findings, undecided, errors, 0.0)
+  return framework.Outcome(PROP, tier, seed, "other", cov, ASSUMPTIONS, findings, undecided, errors, 0.0)
